@@ -8,6 +8,7 @@ correspondence (Lean `Repair.repair` / `Numeral.*` vs real `repair()` / `int()` 
 import copy
 import json
 import os
+import re
 
 import vlib
 from harness import validator_lib as H
@@ -33,16 +34,6 @@ def get_sd(name, text):
 
 def jtree(t):
     return json.loads(json.dumps(t, default=str))
-
-
-# ---- known-finding classes ----------------------------------------------------------------------
-
-def enum_cycle(sd, doc):            # class of F40
-    return H.enum_cycle_class(sd, doc)
-
-
-def cli_fix_log_not_shown(entry):   # class of F41
-    return entry == "cli"
 
 
 # ---- one API-level case -------------------------------------------------------------------------
@@ -84,6 +75,29 @@ def _repair_entries(lst):
     for e in lst or []:
         if isinstance(e, dict) and e.get("tier") == "REPAIR":
             out.append({"rule_id": e.get("rule_id", e.get("code")), "before": e.get("before"), "after": e.get("after"), "tier": e.get("tier")})
+    return out
+
+
+CLI_REPAIR = re.compile(r"^repair: (\w+) \[(\w+)\] (.*)$")
+
+
+def cli_log(stderr: str):
+    """the repair log `octave validate --fix` prints on stderr: `repair: RULE [TIER] 'before' -> 'after'`."""
+    import ast
+    out = []
+    for line in stderr.splitlines():
+        m = CLI_REPAIR.match(line.strip())
+        if not m:
+            continue
+        rest, entry = m.group(3), None
+        for mm in re.finditer(r" -> ", rest):
+            try:
+                b, a = ast.literal_eval(rest[:mm.start()]), ast.literal_eval(rest[mm.end():])
+                entry = {"rule_id": m.group(1), "tier": m.group(2), "before": b, "after": a}
+                break
+            except Exception:
+                continue
+        out.append(entry or {"rule_id": m.group(1), "tier": m.group(2), "before": None, "after": None, "unparsed": rest})
     return out
 
 
@@ -148,29 +162,28 @@ def tool_case(args):
             c0, c1 = c0 + ("" if c0.endswith("\n") else "\n"), c1 + ("" if c1.endswith("\n") else "\n")
             if c0.rstrip("\n") != plain.rstrip("\n"):
                 an.append(("fix-off", "`octave validate` without --fix altered the document"))
-            log, log2, c2 = None, [], None
-            shown = any(k in (o1 + e1) for k in ("ENUM_CASEFOLD", "TYPE_COERCION", "REPAIR"))
+            log = cli_log(e1)
             f2 = os.path.abspath(os.path.join("out", f"cli{idx}b.oct.md"))
             open(f2, "w", encoding="utf-8").write(c1)
-            _rc2, o2, _e2 = H.run_cli(["validate", "--schema", name, "--fix", f2], os.getcwd())
+            _rc2, o2, e2 = H.run_cli(["validate", "--schema", name, "--fix", f2], os.getcwd())
+            log2 = cli_log(e2)
+            if cli_log(e0):
+                an.append(("fix-off", "`octave validate` without --fix reported repairs"))
             c2, _s2 = H.cli_split(o2)
             c2 = None if c2 is None else c2 + ("" if c2.endswith("\n") else "\n")
         else:
             raise ValueError(entry)
         before, after = H.parse_text(c0), H.parse_text(c1)
-        a1, stats = H.c11_oracle(sd, before, after, log or [], tokens=False, have_log=log is not None)
+        a1, stats = H.c11_oracle(sd, before, after, log, tokens=False, have_log=True)
         an += a1
-        if entry == "cli" and stats["changes"] > 0 and not shown:
-            known["F41"] = 1
         if c2 is not None and c2 != c1:
             an.append(("idem-doc", "repairing the repaired output changed it again"))
         if log2:
             an.append(("idem-log", f"repairing the repaired output logged {len(log2)} more repairs, first {log2[0]}"))
-        cyc = enum_cycle(sd, before)
     except Exception as e:  # the tools must not raise
         import traceback
-        return {"idx": idx, "an": [("raise", f"{entry} raised {type(e).__name__}: {e} {traceback.format_exc()[-300:]}")], "stats": stats, "known": known, "cycle": False}
-    return {"idx": idx, "an": an, "stats": stats, "known": known, "cycle": cyc}
+        return {"idx": idx, "an": [("raise", f"{entry} raised {type(e).__name__}: {e} {traceback.format_exc()[-300:]}")], "stats": stats, "known": known}
+    return {"idx": idx, "an": an, "stats": stats, "known": known}
 
 
 # ---- numeral correspondence ---------------------------------------------------------------------
@@ -195,12 +208,8 @@ def numeral_impl(s):
 
 
 def classify(ctx, sd, before_doc, an, entry, case, findings):
-    """sort anomalies into known-finding hits and new failures."""
-    cyc = enum_cycle(sd, before_doc) if before_doc is not None else case.get("cycle", False)
+    """no open finding: every anomaly is a failure of the property."""
     for kind, why in an:
-        if kind in ("cycle", "idem-log", "extra-log") and cyc and "F40" in findings:
-            ctx.known_hits["F40"] = ctx.known_hits.get("F40", 0) + 1
-            continue
         ctx.failures.append({"case": case, "why": why, "why_class": f"{entry}:{kind}", "entry": entry})
 
 
@@ -227,10 +236,7 @@ def replay(ctx, proj, findings):
                     ctx.corr_disagreements.append({"case": case, "model": rep.get("log"), "impl": impl["log"], "view": "repair log / document"})
         else:
             r = tool_case((name, case["schema_text"], case["text"], case["entry"], 0))
-            for k, n in r.get("known", {}).items():
-                if k in findings:
-                    ctx.known_hits[k] = ctx.known_hits.get(k, 0) + n
-            classify(ctx, sd, None, r["an"], case["entry"], dict(case, cycle=r.get("cycle", False)), findings)
+            classify(ctx, sd, None, r["an"], case["entry"], case, findings)
     finally:
         wd.leave()
 
@@ -258,26 +264,6 @@ def run(ctx: vlib.Ctx):
         texts = {s["name"]: wd.add_schema(s) for s in specs}
         wd.enter()
         sds = {n: get_sd(n, t) for n, t in texts.items()}
-
-        # -- known findings: replay the witnesses -----------------------------------------------
-        for fid, f in findings.items():
-            w = f["witness"]
-            if f["cls"] == "enum_cycle":
-                sdw = H.load_schema_text(H.render_schema({"name": "W", "uf": "WARN", "fields": [tuple(x) for x in w["fields"]]}))
-                d = H.build_doc([tuple(n) for n in w["doc"]])
-                _b, a1, _l1, _e = H.run_repair_api(sdw, d, True)
-                _b, _a2, l2, _e = H.run_repair_api(sdw, a1, True)
-                if l2:
-                    ctx.known_reproduced.append((f, f"second repair logged {[(e['before'], e['after']) for e in l2]}"))
-            elif f["cls"] == "cli_fix_log_not_shown":
-                spec = {"name": "META", "uf": "WARN", "fields": [tuple(x) for x in w["fields"]]}
-                wd.add_schema(spec)
-                r = tool_case(("META", H.render_schema(spec), w["text"], "cli", 999999))
-                if r.get("known", {}).get("F41"):
-                    ctx.known_reproduced.append((f, "`octave validate --fix` changed values and printed no repair log"))
-                wd.add_schema(specs[[s["name"] for s in specs].index("META")])
-                _SD_CACHE.pop("META", None)
-                sds["META"] = get_sd("META", texts["META"])
 
         # -- A. numeral grammar: Lean Numeral.* vs CPython int()/float() ----------------------------
         pool = list(dict.fromkeys(H.NUM_STRINGS + [v for v in H.GENERIC_STRINGS]))
@@ -450,13 +436,7 @@ def run(ctx: vlib.Ctx):
                 ctx.count(f"tool:skip:{r['skip'][:30]}")
                 continue
             ctx.count(f"tool:{entry}:changes={min(r['stats'].get('changes', 0), 3)}")
-            for k, n in r.get("known", {}).items():
-                if k in findings:
-                    ctx.known_hits[k] = ctx.known_hits.get(k, 0) + n
-                else:
-                    ctx.failures.append({"case": case, "why": "`octave validate --fix` changed values but printed no log of the changes",
-                                         "why_class": "cli:no-log", "entry": entry})
-            classify(ctx, sds[name], None, r["an"], entry, dict(case, cycle=r.get("cycle", False)), findings)
+            classify(ctx, sds[name], None, r["an"], entry, case, findings)
     finally:
         wd.leave()
     ctx.trusted = ["Lean 4.33.0 kernel; axioms per theorem in coverage.theorems",
